@@ -117,8 +117,6 @@ theorem sf_typ (urec : URec) (N m : Node) (st : Store) (rest : List (String × J
       | none => rfl
       | some l => rw [ht] at hT; simp at hT
     rw [hts]
-    have e : ({ m with type := N.type, types := none } : Node) = { ({ m with types := none } : Node) with type := N.type } := rfl
-    rw [e, h2]
     rfl
   · next h =>
     have hty : N.type = "" := by simpa using h
@@ -126,10 +124,8 @@ theorem sf_typ (urec : URec) (N m : Node) (st : Store) (rest : List (String × J
     split
     · next ts hts =>
       rw [hts]
-      have e : ({ m with type := "", types := some ts } : Node) = { ({ m with type := "" } : Node) with types := some ts } := rfl
-      rw [e, h1]
       show setFields urec (("type", strs ts) :: rest) m st = _
-      have : setField urec m st "type" (strs ts) = Res.bind (decStrList (strs ts)) fun l => .ok ({ m with types := l }, st) := rfl
+      have : setField urec m st "type" (strs ts) = Res.bind (decStrList (strs ts)) fun l => .ok ({ m with types := l, type := "" }, st) := rfl
       rw [setFields_cons_canon urec _ _ _ _ (by decide), this, decStrList_strs]
       rfl
     · next hts =>
